@@ -830,6 +830,10 @@ func normFacts(fs []condFact) []condFact {
 			break
 		}
 		out = append(out, condFact{v, pol, f.If})
+		// a compound condition kept in a variable (`retryable := err != nil && isConn(err)` … `if retryable`) is a merge
+		// of constants and one computed operand: when its value is the one the constants are not, the path came through
+		// the computed operand, so that operand has that value and everything that led to evaluating it holds too
+		out = append(out, expandBoolPhiFact(condFact{v, pol, f.If}, 3)...)
 		// a condition extracted into a named predicate (`if isBackendErrorStatus(status)`, `state.tripped()`): what the
 		// predicate's answer implies about the expression it returns also holds here
 		out = append(out, expandPredicateFact(condFact{v, pol, f.If}, 2)...)
@@ -1445,4 +1449,54 @@ func reachFlagAware(pred, start *ssa.BasicBlock, to ssa.Instruction) bool {
 		return false
 	}
 	return visit(pred, start, map[ssa.Value]bool{})
+}
+
+// expandBoolPhiFact: see normFacts. cf is about a boolean phi produced by && / ||: all edges but one carry the same
+// constant; if cf says the phi has the other value, the facts of the remaining edge hold.
+func expandBoolPhiFact(cf condFact, depth int) []condFact {
+	ph, ok := cf.Cond.(*ssa.Phi)
+	if !ok || depth == 0 || len(ph.Edges) < 2 || len(ph.Edges) != len(ph.Block().Preds) {
+		return nil
+	}
+	if b, isB := ph.Type().Underlying().(*types.Basic); !isB || b.Kind() != types.Bool {
+		return nil
+	}
+	varIdx := -1
+	for i, e := range ph.Edges {
+		k, isK := e.(*ssa.Const)
+		if isK && k.Value != nil {
+			if (k.Value.String() == "true") == cf.True {
+				return nil // a constant edge can produce the asserted value: nothing follows
+			}
+			continue
+		}
+		if varIdx >= 0 {
+			return nil // two computed operands: a disjunction of paths
+		}
+		varIdx = i
+	}
+	if varIdx < 0 {
+		return nil
+	}
+	pred := ph.Block().Preds[varIdx]
+	var out []condFact
+	add := func(fs []condFact) {
+		for _, f := range fs {
+			v, pol := f.Cond, f.True
+			for {
+				if u, isU := v.(*ssa.UnOp); isU && u.Op == token.NOT {
+					v, pol = u.X, !pol
+					continue
+				}
+				break
+			}
+			nf := condFact{v, pol, cf.If}
+			out = append(out, nf)
+			out = append(out, expandBoolPhiFact(nf, depth-1)...)
+		}
+	}
+	add(condFacts(pred))
+	add(edgeFacts(pred, ph.Block()))
+	add([]condFact{{ph.Edges[varIdx], cf.True, cf.If}})
+	return out
 }
